@@ -227,7 +227,7 @@ static int recv_events(m_ctx_t *c, int timeout) {
     fetch_ms(&now, NULL);
     c->stats.idle_time += now - last_time_called;
 
-    for (int i = 0; i < nfds && !err; i++) {
+    for (int i = 0; i < nfds && !err; i++) M_VERIF_LOOP(ctx_recv) {
         ev_src_t *p = poll_recv(&c->ppriv, i);
         if (p) {
             M_ASSERT(p->process);
@@ -322,7 +322,7 @@ static int m_ctx_loop_events(m_ctx_t *c, int max_events) {
 
     int ret = loop_start(c, max_events);
     if (ret == 0) {
-        while (!c->quit && c->stats.running_modules > 0) {
+        while (!c->quit && c->stats.running_modules > 0) M_VERIF_LOOP(ctx_loop) {
             recv_events(c, -1);
         }
         return loop_stop(c);
